@@ -52,7 +52,7 @@ ESSENTIAL = {
     "C15_jid": ["must-reject", "must-accept", "domain-with-resource", "resource-with-slash-or-at"],
     "C16_component": ["id-or-secret-needs-escaping", "reply-stream-error", "reply-unexpected"],
     "C17_fifo": ["pop-after-empty-and-refill", "mixed-peek-pop", "push-of-held-entry", "caller-changes-own-entry"],
-    "C18_keepalive": ["ping-failure", "session-end", "end-to-end", "over-starttls", "slow-disconnected-handler"],
+    "C18_keepalive": ["ping-failure", "session-end", "end-to-end", "over-starttls", "slow-disconnected-handler", "over-websocket"],
     "C19_backoff": ["overflowing-attempt", "reset", "jitter", "no-jitter"],
     "C20_address": ["ipv6", "explicit-port", "ws", "wss"],
 }
